@@ -119,6 +119,20 @@ class CreateNode(Contract):
             if not is_node(x):
                 raise Unsupported("non-node child in create_node")
         pl = payload_to_terms(ex, self.world, Kop, vals.get("payload"))
+        if Kop in S.QUANT_OPS:
+            # set-level lemma about bound variables: a subset of the (symbol) variables of an
+            # existing quantifier consists of symbols
+            m = self.world.mk_term(Kop, args, pl)
+            for info in list(ex.ghost.get("nodeinfo", {}).values()):
+                if info["op"] in S.QUANT_OPS and not info["t"].eq(m):
+                    t = info["t"]
+                    ex.assume(z3.Implies(z3.And(z3.IsSubset(pl[0], S.qvset(t)), S.qv_ok(t)), S.qv_ok(m)))
+            p0 = vals.get("payload")
+            if isinstance(p0, (tuple, list)):
+                ex.assume(S.qv_ok(m) == z3.And([S.op(x) == S.SYMBOL for x in p0]) if p0 else S.qv_ok(m))
+                ex.assume(S.nqv(m) == len(p0))
+            elif isinstance(p0, ZSetTuple):
+                ex.assume(S.nqv(m) == BI.length(self.world, ex, p0))
         n = self.world.new_node(ex, Kop, args, pl, check=True)
         p = vals.get("payload")
         if Kop in S.QUANT_OPS and isinstance(p, (tuple, list)):
